@@ -8,7 +8,8 @@ RULE = ("at states sampled along real mixed histories: 35 kinds of structurally 
         "items, garbage Bitcoin transactions, ragged proofs), 8 kinds of broken execution-block messages (no payload, missing / lying count "
         "byte, garbage system transactions, empty and random typed request lists of plausible and implausible sizes, missing base fee, wrong "
         "field sizes) as first and as later transaction, byte-level mutants (truncated, extended, bit-flipped, random) of well-formed "
-        "transactions, and random proposals; each goes through CheckTx, ProcessProposal and FinalizeBlock of the real app; distinct = "
+        "transactions, and random proposals, plus membership request lists of every shape (unknown, duplicated, the proposer, everybody) and the "
+        "relayer-membership histories of C16 (a FinalizeBlock failure in any of them is a `halt`); each malformed input goes through CheckTx, ProcessProposal and FinalizeBlock of the real app; distinct = "
         "distinct (entry point, mutation kind, outcome) triples")
 
 
@@ -44,9 +45,14 @@ def run(tier, seed, work):
 
     with ThreadPoolExecutor(max_workers=verif.NCPU) as ex:
         paths = list(ex.map(one, range(nj)))
+    # membership histories (the C16 driver): arbitrary decodable add / remove request lists across blocks and elections
+    rel_jobs = [("c19rel_%d" % j, ["relayer", "-n", 3 if quick else 20, "-depth", 30, "-seed", seed * 1000 + 700 + j,
+                                   "-period", 3, "-accept-timeout", (2, 0)[j % 2]]) for j in range(4)]
+    rel_paths = verif.run_drivers(binary, rel_jobs, work)
+    paths += [rel_paths[n] for n, _ in rel_jobs]
     trace = verif.concat([p for p in paths if os.path.exists(p)], os.path.join(work, "robust.ndjson"))
     rc = verif.finish_trace_check("C19", tier, seed, work, trace, ("Trace_Robust.tla", "Trace_Robust.cfg"), key, "exploration",
-                                  [], RULE, states=0, transitions=0, t0=t0, boundary=lambda l: '"ev":"init"' in l,
+                                  [], RULE, states=0, transitions=0, t0=t0, boundary=lambda l: '"ev":"init"' in l, ntraces=sum(1 for l in open(trace) if '"ev":"init"' in l),
                                   nontrivial_fn=None)
     evp = os.path.join(verif.EVIDENCE, "C19.json")
     ev = json.load(open(evp))
